@@ -702,6 +702,13 @@ def check_c13(ctx):
 
 
 def check_c16(ctx):
+    # specification level: freeze every thread but the reader at every reachable state of CLHT (CLHT_Freeze)
+    sel = [("MapOf", "S1-slot-reuse")] if not ctx.thorough else [(v, n) for v in ("Map", "MapOf") for n in ("S1-slot-reuse", "S4-grow", "S7-clear-vs-grow", "S6-clear")]
+    for (variant, name) in sel:
+        r = clht.run_freeze(name, variant, timeout=7200)
+        if r["violated"]:
+            raise Inconclusive("TLC reports %s in CLHT_Freeze %s/%s with the code's switches (specification, not a verdict about the code)\n%s" % (r["violated"], name, variant, r["out"][-2000:]))
+        ctx.add_model("CLHT_Freeze/%s/%s (reader bounded by 40 own steps, never blocked)" % (variant, name), r)
     scs = []
     for (kind, kt, vt) in (ALL_MAPS if ctx.thorough else ALL_MAPS[:2]):
         scs += scen.solo_families(kind, kt, vt)
